@@ -274,6 +274,27 @@ def variation_points(pm: ProgramModel, ctx: Ctx, mb: ModelBuilder, fn: Any) -> N
                            f"variation point ({got!r})")
             if len(r2) != 1 + (1 if variants else 0):
                 bad.append(f"{label}: unexpected keys in the result")
+    # whole function on the tree family
+    from ..model import rich_model
+    from ..roundtrip import features as all_features
+    models = {k: mb.model(build_tree(mb, spec), []) for k, spec in TREES.items()}
+    models["rich"] = rich_model(mb)
+    for name, m in models.items():
+        try:
+            got = Interp(pm).call(fn, [m])
+        except AbsRaise as exc:
+            got = ("raise", exc.what)
+        want = {}
+        for f in all_features(m):
+            vs = [c for r in f._f["relations"]
+                  if kind(D(int(r._f["card_min"]), int(r._f["card_max"]), len(r._f["children"]))) != "mandatory"
+                  for c in r._f["children"]]
+            if vs:
+                want[f._f["name"]] = sorted(c._f["name"] for c in vs)
+        gotn = {k._f["name"]: sorted(c._f["name"] for c in v) for k, v in got.items()} if isinstance(got, dict) else got
+        ctx.check(gotn == want, rule, f"tree:{name}", loc(fn.unit.path, fn.node),
+                  f"variation points of abstract tree '{name}' match the definition",
+                  bad=f"variation_points on '{name}' gives {str(gotn)[:120]}, definition gives {str(want)[:120]}")
     ctx.analysed["C16-VP:step-evaluations"] = n
     ctx.check(not bad, rule, "step", loc(fn.unit.path, loop),
               f"each iteration maps the popped feature to the children of its non-mandatory "
